@@ -21,6 +21,7 @@ var c07Exprs = []string{
 	"sum(longs)", "longs[0] + longs[1]", "sort(longs)", "max(longs) == `323456789012345678`", "longs[*] | [?@ > `200000000000000000`]", "to_number('123456789012345678901') + longs[2]",
 	"a[*].[$.b, d]", "map(&$.n, arr)", "arr[?k == $.n || g == $.b]", "map(&[$.s, @.k], arr)", "sort(`[3,1,2,7,5,4,6,0,9,8,11,10,13,12]`)",
 	"nested[:2][]", "nested[::2][]", "nested[]", "[nested[0], strs][]", "nested[*][1:]", "reverse(nested[0])", "sort(nested[0])", "join('-', strs)", "join(s, strs)", "to_string(nested)", "merge(o, o)", "zip(nested[0], strs)",
+	"let $v = b in a[*].[$v, d, $v]", "let $v = n in arr[*].[$v + k, $v]", "pad_left(s, wide)", "pad_right(s, wide)", "pad_left(b, wide) | length(@)",
 	"n + n * n", "sum(nums) / length(nums)", "arr[*].k | sort(@)", "o.* | sort(@)", "max_by(arr, &k).g", "not_null(missing, a, b)", "join(',', strs)", "split(s, ',')", "a == a && o == o", "[a, b][].b",
 }
 
@@ -48,12 +49,12 @@ func spare(v any) any {
 
 func c07DocA() any {
 	return spare(core.JSONDoc(`{"a":[{"b":[{"c":1},{"c":2}],"c":true,"d":"x"},{"b":[{"c":3}],"c":false,"d":"y"}],"b":"bee","c":3,"o":{"z":1,"y":2},
-		"arr":[{"k":3,"g":"p"},{"k":1,"g":"q"},{"k":2,"g":"p"}],"n":2,"nums":[1,2,3.5],"strs":["x","y"],"s":"a,b,c","nested":[[1,2,3],[4],[5]],
+		"arr":[{"k":3,"g":"p"},{"k":1,"g":"q"},{"k":2,"g":"p"}],"n":2,"nums":[1,2,3.5],"strs":["x","y"],"s":"a,b,c","wide":100,"nested":[[1,2,3],[4],[5]],
 		"longs":[123456789012345678,223456789012345678,323456789012345678,1.23456789012345678e30]}`))
 }
 
 func c07DocB() any {
-	return spare(core.JSONDoc(`{"a":[{"b":[{"c":9}],"c":true,"d":"z"}],"b":null,"c":[1],"o":{"x":7},"arr":[{"k":"b","g":"r"},{"k":"a","g":"r"}],"n":10,"nums":[4],"strs":["p","q","r"],"s":"solo","nested":[[6],[7,8]],"longs":[987654321098765432,887654321098765432,787654321098765432,9.87654321098765432e30]}`))
+	return spare(core.JSONDoc(`{"a":[{"b":[{"c":9}],"c":true,"d":"z"}],"b":null,"c":[1],"o":{"x":7},"arr":[{"k":"b","g":"r"},{"k":"a","g":"r"}],"n":10,"nums":[4],"strs":["p","q","r"],"s":"solo","wide":190,"nested":[[6],[7,8]],"longs":[987654321098765432,887654321098765432,787654321098765432,9.87654321098765432e30]}`))
 }
 
 // c07DocBad makes most expressions of the menu fail half-way (a wrong type after the first elements): the prelude of the
@@ -74,7 +75,9 @@ const c07Sep = " ; "
 
 // pairs of different expressions that start from the same part of the same document
 var c07Pairs = [][2]string{{"nested[:2][]", "nested[::2][]"}, {"nested[]", "nested[:2][]"}, {"sort(nested[0])", "reverse(nested[0])"}, {"join('-', strs)", "join(',', strs)"}, {"sort_by(arr, &k)", "arr[::-1]"},
-	{"[nested[0], strs][]", "nested[0][1:]"}, {"merge(o, o)", "o.*"}, {"to_string(nested)", "nested[*][0]"}}
+	{"[nested[0], strs][]", "nested[0][1:]"}, {"merge(o, o)", "o.*"}, {"to_string(nested)", "nested[*][0]"},
+	// texts that differ only inside a quoted token, or only in layout
+	{"join(' ', strs)", "join('  ', strs)"}, {"length('x y')", "length('x   y')"}, {"split(s, ',')", "split(s,  ',')"}, {"\"a\"", "\"a\" "}, {"pad_left(s, `100`)", "pad_left(s, `190`)"}, {"pad_right(s, `70`)", "pad_left(s, `300`)"}}
 
 func c07Scenarios(thorough bool) []c07Scenario {
 	var out []c07Scenario
